@@ -100,7 +100,9 @@ ApplyOK(in, st, out) ==
     /\ Len(out) = Len(in)
     /\ \A i \in 1..Len(in) :
          IF IsNl(in[i]) THEN out[i] = NlCell
-         ELSE out[i] = [in[i] EXCEPT !.s = <<st>> \o @, !.r = TRUE]
+         ELSE \/ out[i] = [in[i] EXCEPT !.s = <<st>> \o @, !.r = TRUE]
+              \* a style that is already the cell's outermost one need not be repeated
+              \/ (in[i].s # <<>> /\ in[i].s[1] = st /\ out[i] = [in[i] EXCEPT !.r = TRUE])
 
 \* ------------------------------------------------------------------ Requirement (C16)
 (* vertical centring works on lines; here a "text" is a sequence of line labels.
@@ -207,5 +209,7 @@ CenterAlg(pre, cen, suf, h) ==            \* after the fix: an empty buffer cont
          IN p \o cen \o s
 
 ApplyAlg(in, st) ==
-    [i \in 1..Len(in) |-> IF IsNl(in[i]) THEN NlCell ELSE [in[i] EXCEPT !.s = <<st>> \o @, !.r = TRUE]]
+    [i \in 1..Len(in) |-> IF IsNl(in[i]) THEN NlCell
+                           ELSE IF in[i].s # <<>> /\ in[i].s[1] = st THEN [in[i] EXCEPT !.r = TRUE]
+                           ELSE [in[i] EXCEPT !.s = <<st>> \o @, !.r = TRUE]]
 =============================================================================
